@@ -47,24 +47,18 @@ Theorem C09_cell_remove_value : forall {T} (d : list (entry T)) w r,
 Proof. exact @cell_remove_value. Qed.
 Print Assumptions C09_cell_remove_value.
 
-(* ---- zone level: traces of API calls (run = fold of step over the events) ---- *)
+(* ---- zone level: traces of API calls (run = fold of step over the events).
+   No restriction on the operations: update_child for names without a node
+   included (node existence is derived from versioned data since /repo 1953e6b). ---- *)
 
 Theorem C09_snapshot_isolation : forall evs s r,
-  zinv s -> r <= z_cur s -> z_cur s + ncommits evs + 2 < LIM -> no_create s evs = true ->
+  zinv s -> r <= z_cur s -> z_cur s + ncommits evs + 2 < LIM ->
   (forall name t, query (run s evs) r name t = query s r name t) /\ walk (run s evs) r = walk s r.
 Proof. exact snapshot_isolation. Qed.
 Print Assumptions C09_snapshot_isolation.
 
-Theorem C09_snapshot_isolation_refuted :
-  exists s evs r name t,
-    zinv s /\ r <= z_cur s /\ z_cur s + ncommits evs + 2 < LIM /\ no_create s evs = false /\
-    query s r name t = ANx (Some 1) /\ query (run s evs) r name t = ANoData (Some 1).
-Proof. exact snapshot_isolation_refuted. Qed.
-Print Assumptions C09_snapshot_isolation_refuted.
-
 Theorem C09_commit_atomic : forall s ops,
   zinv s -> z_writer s = None -> z_cur s + 2 < LIM -> all_data ops ->
-  no_create (run s [EWAcquire; EWOpen]) ops = true ->
   let sN := run s ([EWAcquire; EWOpen] ++ ops) in
   let sC := step sN ECommit in
   (z_cur sN = z_cur s /\
@@ -76,22 +70,11 @@ Print Assumptions C09_commit_atomic.
 
 Theorem C09_abort_invisible : forall s ops,
   zinv s -> z_writer s = None -> z_cur s + 1 < LIM -> all_data ops ->
-  no_create (run s [EWAcquire; EWOpen]) ops = true ->
   let s' := run s ([EWAcquire; EWOpen] ++ ops ++ [EDrop]) in
   z_cur s' = z_cur s /\ z_writer s' = None /\
   forall v, (forall name t, query s' v name t = query s v name t) /\ walk s' v = walk s v.
 Proof. exact abort_invisible. Qed.
 Print Assumptions C09_abort_invisible.
-
-Theorem C09_abort_invisible_refuted :
-  exists s ops name t,
-    zinv s /\ z_writer s = None /\ z_cur s + 1 < LIM /\ all_data ops /\
-    no_create (run s [EWAcquire; EWOpen]) ops = false /\
-    let s' := run s ([EWAcquire; EWOpen] ++ ops ++ [EDrop]) in
-    z_writer s' = None /\
-    query s (z_cur s') name t = ANx (Some 1) /\ query s' (z_cur s') name t = ANoData (Some 1).
-Proof. exact abort_invisible_refuted. Qed.
-Print Assumptions C09_abort_invisible_refuted.
 
 Theorem C09_writers_serialised : forall s wr,
   zinv s -> z_writer s = Some wr ->
@@ -110,9 +93,14 @@ Proof. exact walk_exact. Qed.
 Print Assumptions C09_walk_exact.
 
 Theorem C09_step_preserves_invariant : forall s e,
-  zinv s -> z_cur s + 2 < LIM -> creates s e = false ->
+  zinv s -> z_cur s + 2 < LIM ->
   zinv (step s e) /\ z_cur s <= z_cur (step s e) /\
   z_cur (step s e) <= z_cur s + (match e with ECommit => 1 | _ => 0 end) /\
   (forall r, r <= z_cur s -> view_eq (step s e) s r).
 Proof. exact step_inv. Qed.
 Print Assumptions C09_step_preserves_invariant.
+
+Theorem C09_reachable_invariant : forall is evs,
+  ncommits evs + 2 < LIM -> zinv (run (build is) evs).
+Proof. exact reachable_invariant. Qed.
+Print Assumptions C09_reachable_invariant.
